@@ -165,6 +165,7 @@ class Interp:
         self.repo = repo
         self.ids = itertools.count(1)
         self.heap = {}
+        self.written_attrs = set()     # attribute locations incremented (x.a += ...) during this run
         self.lp_problems = set()
         self.depth = 0
         self.stack = []
@@ -190,8 +191,10 @@ class Interp:
         return False
 
     # ---- entry ---------------------------------------------------------------------
-    def run(self, func, args, selfterm=None):
-        """Interpret func with parameter terms args (dict name->term).  Returns (effects, return term)."""
+    def run(self, func, args, selfterm=None, use_defaults=False):
+        """Interpret func with parameter terms args (dict name->term).  Returns (effects, return term).  A parameter that is
+        not given is symbolic (the function is analysed for every argument) - its default only counts at a call site that
+        omits it - unless use_defaults is set."""
         env = {}
         params = func.params
         if func.cls and params and params[0] == 'self':
@@ -204,7 +207,7 @@ class Interp:
         for p in params:
             if p in args:
                 env[p] = args[p]
-            elif p in dmap:
+            elif p in dmap and use_defaults:
                 env[p] = self.ex(dmap[p], Frame(func, {}))
             else:
                 env[p] = S(p)
@@ -458,6 +461,14 @@ class Interp:
     def load(self, t):
         return self.heap.get(t, t)
 
+    def counter_attrs(self):
+        """names of attributes that are incremented / decremented somewhere in the package (x.a += 1)"""
+        if not hasattr(self, '_counter_attrs'):
+            self._counter_attrs = {n.target.attr for tree in self.repo.trees.values() for n in ast.walk(tree)
+                                   if isinstance(n, ast.AugAssign) and isinstance(n.target, ast.Attribute) and isinstance(n.op, (ast.Add, ast.Sub))
+                                   and isinstance(n.value, ast.Constant) and isinstance(n.value.value, int)}
+        return self._counter_attrs
+
     # ---- expressions ---------------------------------------------------------------
     def ex(self, n, fr):
         t = self._ex(n, fr)
@@ -473,6 +484,8 @@ class Interp:
         if isinstance(n, ast.Name):
             return self.lookup(n.id, fr)
         if isinstance(n, ast.Attribute):
+            if n.attr in getattr(self.repo, 'unsupported_properties', ()):
+                raise Unknown('read of the property %s, whose getter is outside the fragment (not a single pure return)' % n.attr)
             base = self.ex(n.value, fr)
             if n.attr in MUTATING_METHODS and isinstance(n.value, ast.Name) and n.value.id in fr.env and base[0] in ('list', 'dict', 'comp', 'cat', 'accum', 'upd'):
                 # `push = out.append` kept as a value: later calls of it change `out` behind the analysis' back
@@ -1188,6 +1201,16 @@ class Interp:
                 self.emit(Eff('alias', fr.func, s, name=s.targets[0].id, of=s.value.id))
                 return
             v = self.ex(s.value, fr)
+            if isinstance(s.value, ast.Attribute) and len(s.targets) == 1 and isinstance(s.targets[0], ast.Name) and s.value.attr in self.counter_attrs() \
+                    and is_num(v) and A(self.ex(s.value.value, fr), s.value.attr) in self.written_attrs:
+                v = A(self.ex(s.value.value, fr), s.value.attr)          # a counter whose current value happens to be known: still a snapshot
+            if v[0] == 'attr' and v in self.written_attrs and (v not in self.heap or is_num(self.heap[v])) and len(s.targets) == 1 and isinstance(s.targets[0], ast.Name):
+                # old = self.counter, where the counter has been incremented since the analysis last knew its value: the local
+                # keeps THAT value while the attribute moves on - a snapshot, not the attribute (self.counter > old is not x > x)
+                sid = next(self.ids)
+                self.heap.pop(v, None)            # from here on the attribute is read as itself (its relation to the snapshot is what matters)
+                self.emit(Eff('snap', fr.func, s, attr=v, sid=sid))
+                v = ('snap', v, sid)
             if self.is_lp_object(v) and len(s.targets) == 1 and isinstance(s.targets[0], ast.Name) and not self.is_outer(s.targets[0].id, fr):
                 rid = next(self.ids)
                 self.lpstore[rid] = v
@@ -1227,6 +1250,8 @@ class Interp:
                 self.lp_add(tt, v, fr, s)
                 return
             self.emit(Eff('augstore', fr.func, s, target=tt, op=op, value=v))
+            if tt[0] == 'attr':
+                self.written_attrs.add(tt)
             cur = self.heap.get(tt)
             if cur is not None:
                 self.heap[tt] = simp_top(BIN(op, cur, v))
